@@ -64,6 +64,20 @@ pub unsafe extern "C" fn getrandom(buf: *mut libc::c_void, len: libc::size_t, _f
     len as libc::ssize_t
 }
 
+/// Fault injection at the system-call seam: recv(2) on a simulated thread may fail with EINTR
+/// (decided by the run's fault stream, only in runs that enable the fault).  std's UnixStream::read
+/// and the library's own drain both go through this symbol.
+#[no_mangle]
+pub unsafe extern "C" fn recv(fd: libc::c_int, buf: *mut libc::c_void, len: libc::size_t, flags: libc::c_int) -> libc::ssize_t {
+    // only a call that could really have slept can be interrupted: blocking descriptor, no MSG_DONTWAIT
+    if flags & libc::MSG_DONTWAIT == 0 && sighook_shim::sim::active() && libc::fcntl(fd, libc::F_GETFL) & libc::O_NONBLOCK == 0 && sighook_shim::sim::recv_eintr() {
+        *libc::__errno_location() = libc::EINTR;
+        return -1;
+    }
+    let r = libc::syscall(libc::SYS_recvfrom, fd, buf, len, flags, 0usize, 0usize);
+    r as libc::ssize_t
+}
+
 pub mod getrandom_state {
     use std::sync::atomic::{AtomicU64, Ordering};
     pub static CTR: AtomicU64 = AtomicU64::new(0x243F6A8885A308D3);
